@@ -15,7 +15,7 @@ func init() { Monitors["C10"] = runC10 }
 
 type ctxKeyT string
 
-var dirtyActions = []string{"set", "adderror", "replace-resp", "replace-req", "abort", "status", "write", "params", "sethandlers-noop", "header", "retain", "params-inplace", "query-mutate", "render-fail", "render-ok"}
+var dirtyActions = []string{"set", "adderror", "replace-resp", "replace-req", "abort", "status", "write", "params", "sethandlers-noop", "header", "retain", "params-inplace", "query-mutate", "render-fail", "render-ok", "allowed-inplace"}
 
 // c10Renderer writes part of the page and then fails when asked to.
 type c10Renderer struct{}
@@ -86,6 +86,14 @@ func dirtyContext(c *rux.Context, rec *Rec, actions []string) {
 				c.Params["id"] = "edited-in-place"
 				c.Params["added-in-place"] = "x"
 			}
+		case "allowed-inplace":
+			// a not-allowed handler edits the list of allowed methods it was given
+			if v, ok := c.Get(rux.CTXAllowedMethods); ok {
+				if list, _ := v.([]string); len(list) > 0 {
+					list[0] = "EDITED"
+					c.Set(rux.CTXAllowedMethods, list[:0])
+				}
+			}
 		case "query-mutate":
 			// the handler edits the parsed query values it was given
 			q := c.QueryValues()
@@ -129,8 +137,15 @@ func ctxSnapshot(c *rux.Context, rec *Rec) string {
 		qk = append(qk, k+"="+strings.Join(vs, "|"))
 	}
 	sort.Strings(qk)
-	return fmt.Sprintf("query=%v page=%q data=%v params={%s} errors=%d first_error=%v aborted=%v status=%d length=%d resp_type=%T raw_writer_is_own=%v req_is_own=%v handler_nil=%v",
-		qk, c.Query("page"), keys, fmtParams(copyParams(c.Params)), len(c.Errors), c.FirstError(), c.IsAborted(), c.StatusCode(), c.Length(),
+	allowed := "<unset>"
+	if v, ok := c.Get(rux.CTXAllowedMethods); ok {
+		list, _ := v.([]string)
+		list = append([]string{}, list...)
+		sort.Strings(list)
+		allowed = strings.Join(list, ",")
+	}
+	return fmt.Sprintf("query=%v page=%q allowed=%s data=%v params={%s} errors=%d first_error=%v aborted=%v status=%d length=%d resp_type=%T raw_writer_is_own=%v req_is_own=%v handler_nil=%v",
+		qk, c.Query("page"), allowed, keys, fmtParams(copyParams(c.Params)), len(c.Errors), c.FirstError(), c.IsAborted(), c.StatusCode(), c.Length(),
 		c.Resp, c.RawWriter() == any(rec), ownReq, c.Handler() == nil)
 }
 
@@ -169,7 +184,7 @@ func c10Case(t *T) {
 	// half of the routers have no global middleware at all (then the per-request
 	// chain is not rebuilt around the globals and the first route/fallback handler snapshots)
 	noGlobal := chance(r, 1, 2)
-	g := &progGen{maxDepth: 2, dynamic: true, noGlobal: noGlobal}
+	g := &progGen{maxDepth: 2, dynamic: true, noGlobal: noGlobal, optOnly: true}
 	p := GenProgram(r, g)
 	armPanics(p)
 	hookOn := chance(r, 2, 3) // without a hook a panic escapes ServeHTTP (the driver recovers it) and the history goes on
@@ -278,6 +293,14 @@ func c10Case(t *T) {
 		}
 		s1, _ := rec.Extra["snapshot"].(string)
 		s2, _ := frec.Extra["snapshot"].(string)
+		// independent of the twin (which shares this process): nothing an earlier handler put
+		// into a parameter map or an allowed-methods list may be there when a request starts
+		for _, mark := range []string{"added-in-place", "edited-in-place", "overwritten", "EDITED"} {
+			if strings.Contains(s1, mark) || strings.Contains(s2, mark) {
+				t.Fail("context-not-pristine:marker-of-earlier-handler", "request #%d %s: the first handler finds %q, which only a handler of an earlier request (of this or another router) can have put there.\n observed: %s\n fresh router: %s", k, q, mark, s1, s2)
+				return
+			}
+		}
 		if s1 != s2 {
 			t.Fail("context-not-pristine:"+snapshotDiff(s1, s2), "request #%d %s started from a context that is not pristine.\n observed at the first handler: %s\n on a fresh router:             %s\n previous request: %s", k, q, s1, s2, prevOf(histDesc))
 			return
